@@ -53,6 +53,10 @@ type Point struct {
 	Chosen     int  //
 	RunEnabled bool // alternative 0 is "keep running the current thread" (switching away costs a preemption)
 	Data       bool // a data choice (select case, pool hit/miss): never a preemption
+	// FirstCostly: alternatives with index >= FirstCostly are deviations that count against the
+	// bound: switching away from a thread that could continue (a preemption), or letting an
+	// environment event happen (a timer firing) while ordinary threads can run
+	FirstCostly int
 }
 
 type abortT struct{}
@@ -83,6 +87,7 @@ type Sched struct {
 	visit           func(key uint64, preemptions int) bool // state-cache hook: false = prune here
 	Pruned          bool
 	NoBlockViolated string
+	delay    bool // delay bounding: every deviation from the canonical next thread costs, forced switches included
 	rtAcc           uint64 // commutative hash of the set of API calls that have returned (real-time order)
 	clock           int    // logical clock; every stamp is unique
 	preempt         int
@@ -194,6 +199,7 @@ func (s *Sched) runThread(t *Thread, f func()) {
 	if s.aborting {
 		return
 	}
+	t.hash = mix(t.hash, 0x57a7) // started: distinct from "not yet scheduled"
 	defer func() {
 		r := recover()
 		if r == nil {
@@ -279,6 +285,15 @@ func (s *Sched) isReady(t *Thread) bool {
 //
 //go:norace
 func (s *Sched) choose(n int, runEnabled, data bool) int {
+	fc := n
+	if runEnabled && !data {
+		fc = 1
+	}
+	return s.chooseC(n, runEnabled, data, fc)
+}
+
+//go:norace
+func (s *Sched) chooseC(n int, runEnabled, data bool, firstCostly int) int {
 	c := 0
 	i := len(s.Points)
 	if i < len(s.prefix) {
@@ -287,8 +302,8 @@ func (s *Sched) choose(n int, runEnabled, data bool) int {
 			panic(fmt.Sprintf("vrt: replay divergence at point %d: choice %d of %d", i, c, n))
 		}
 	}
-	s.Points = append(s.Points, Point{N: n, Chosen: c, RunEnabled: runEnabled, Data: data})
-	if runEnabled && !data && c != 0 {
+	s.Points = append(s.Points, Point{N: n, Chosen: c, RunEnabled: runEnabled, Data: data, FirstCostly: firstCostly})
+	if c >= firstCostly {
 		s.preempt++
 	}
 	return c
@@ -308,7 +323,7 @@ func Choose(n int) int {
 // stateKey combines the happens-before hashes of all threads.
 //
 //go:norace
-func (s *Sched) stateKey() uint64 {
+func (s *Sched) stateKey(runEnabled bool) uint64 {
 	var k uint64 = 0x1234567
 	for _, t := range s.threads {
 		h := t.hash
@@ -316,6 +331,11 @@ func (s *Sched) stateKey() uint64 {
 			h = mix(h, 0xdead)
 		}
 		k = mix(k, h)
+	}
+	if !runEnabled {
+		// the running thread is finished or blocked: who it was no longer matters (every
+		// choice is a forced switch)
+		return mix(k, 0xffff)
 	}
 	return mix(k, uint64(s.cur.ID))
 }
@@ -355,18 +375,26 @@ func (s *Sched) switchFrom(t *Thread) {
 		}
 		panic(abortSentinel)
 	}
-	var en [16]*Thread
+	var en [24]*Thread
 	enabled := en[:0]
 	runEnabled := false
 	if s.isReady(t) {
 		enabled = append(enabled, t)
 		runEnabled = true
 	}
+	// canonical order: the running thread, then ordinary threads by id, then environment
+	// (daemon) threads by id
 	for _, x := range s.threads {
-		if x != t && s.isReady(x) {
+		if x != t && !x.daemon && s.isReady(x) {
 			enabled = append(enabled, x)
-		} else if x.noBlock != "" && !x.done && x.pend != nil && s.NoBlockViolated == "" && (x != t || !runEnabled) && s.othersStable(x) {
+		} else if x.noBlock != "" && !x.done && x.pend != nil && s.NoBlockViolated == "" && (x != t || !runEnabled) && !s.isReady(x) && s.othersStable(x) {
 			s.NoBlockViolated = fmt.Sprintf("T%d(%s) is blocked at %s although it is inside %s and every other thread is parked in harness code, blocked or finished", x.ID, x.Name, x.pend.Kind, x.noBlock)
+		}
+	}
+	ordinary := len(enabled)
+	for _, x := range s.threads {
+		if x != t && x.daemon && s.isReady(x) {
+			enabled = append(enabled, x)
 		}
 	}
 	if len(enabled) == 0 {
@@ -383,7 +411,7 @@ func (s *Sched) switchFrom(t *Thread) {
 		panic(abortSentinel)
 	}
 	if s.visit != nil && len(s.Points) >= len(s.prefix) {
-		if !s.visit(s.stateKey(), s.preempt) {
+		if !s.visit(s.stateKey(runEnabled), s.preempt) {
 			s.Pruned = true
 			s.finish()
 			if t.done {
@@ -394,7 +422,14 @@ func (s *Sched) switchFrom(t *Thread) {
 	}
 	n := enabled[0]
 	if len(enabled) > 1 {
-		n = enabled[s.choose(len(enabled), runEnabled, false)]
+		fc := 1 // switching away from a thread that can continue is a preemption
+		if !runEnabled && !s.delay {
+			fc = ordinary // a forced switch is free among ordinary threads; an environment event costs
+			if ordinary == 0 {
+				fc = len(enabled) // nothing else can run: the environment event is forced
+			}
+		}
+		n = enabled[s.chooseC(len(enabled), runEnabled, false, fc)]
 	}
 	if n == t {
 		return
@@ -572,12 +607,16 @@ type RunConfig struct {
 	Trace    bool
 	MaxSteps int
 	Visit    func(key uint64, cur int) bool
+	// Delay selects delay bounding: the default schedule is deterministic (the running thread
+	// while it can run, else the lowest ordinary thread) and EVERY other choice of thread costs
+	// one deviation. Without it forced switches are free (preemption bounding).
+	Delay bool
 }
 
 // Run performs one execution: body spawns the model threads (sequential set-up
 // first, in pass-through mode), then the concurrent phase runs to completion.
 func Run(cfg RunConfig, body func(s *Sched)) *Exec {
-	s := &Sched{prefix: cfg.Prefix, fin: make(chan struct{}, 1), tracing: cfg.Trace, maxSteps: cfg.MaxSteps, visit: cfg.Visit}
+	s := &Sched{prefix: cfg.Prefix, fin: make(chan struct{}, 1), tracing: cfg.Trace, maxSteps: cfg.MaxSteps, visit: cfg.Visit, delay: cfg.Delay}
 	if s.maxSteps == 0 {
 		s.maxSteps = 20000
 	}
@@ -676,4 +715,22 @@ func (s *Sched) othersStable(x *Thread) bool {
 		return false
 	}
 	return true
+}
+
+// LiveGo returns the number of goroutines spawned by the code under test (rewritten `go`
+// statements) that have not finished yet.
+//
+//go:norace
+func LiveGo() int {
+	s := cur
+	if s == nil {
+		return 0
+	}
+	n := 0
+	for _, t := range s.threads {
+		if !t.done && !t.daemon && t.Name == "go" {
+			n++
+		}
+	}
+	return n
 }
